@@ -35,6 +35,10 @@ pub fn snapshot() -> (usize, u64, u64, u64, u64) {
 pub struct Tracked {
     pub q: Q,
     id: u64,
+    /// always `true` in a real value. A `bool` gives the type a niche: `Option<Tracked>::None` is then NOT the all-zero
+    /// bit pattern, as for any sample type with a `bool`, `char` or field-less enum inside — memory that is merely
+    /// zeroed does not read as "no sample" but as a phantom sample that nobody constructed
+    real: bool,
     /// under Miri every value also owns a heap cell, so that a double drop or a use after drop is undefined behaviour
     /// that the interpreter reports (natively the ledger does the counting without risking a crash)
     #[cfg(miri)]
@@ -54,6 +58,7 @@ impl Tracked {
         Tracked {
             q,
             id,
+            real: true,
             #[cfg(miri)]
             _cell: Box::new(0),
         }
@@ -76,6 +81,7 @@ impl Clone for Tracked {
         Tracked {
             q: self.q,
             id,
+            real: self.real,
             #[cfg(miri)]
             _cell: Box::new(0),
         }
@@ -87,7 +93,7 @@ impl Drop for Tracked {
         let _ = LEDGER.try_with(|l| {
             let mut l = l.borrow_mut();
             l.dropped += 1;
-            if !l.live.remove(&self.id) {
+            if !l.live.remove(&self.id) || !self.real {
                 l.errors += 1;
             }
         });
